@@ -375,22 +375,22 @@ theorem terminal_add {k : CKind} (hk : Terminal k) {st : SplitStatus} {x y : Str
     refine ⟨h1, ?_⟩
     intro r s1 hs1
     obtain ⟨hr, hg1, hu⟩ := h2 r s1 hs1
-    exact ⟨hr, hg1, fun _ => (appendText_textStep hs1).qsim, fun h => by rcases h with h | h <;> cases h,
-      fun u st' hsu _ => hu u hsu⟩
+    exact ⟨hr, hg1, (fun _ => (appendText_textStep hs1).qsim), (fun h => by rcases h with h | h <;> cases h),
+      (fun u st' hsu _ => hu u hsu)⟩
   · -- in body
     obtain ⟨h1, h2⟩ := body_add_sim (x := x) (y := y) hg0 st
     refine ⟨h1, ?_⟩
     intro r s1 hs1
     obtain ⟨hr, hg1, hab, hu⟩ := h2 r s1 hs1
-    exact ⟨hr, hg1, fun h => by rcases h with h | h <;> cases h, fun _ => hab, fun u st' hsu _ => hu u st' hsu⟩
+    exact ⟨hr, hg1, (fun h => by rcases h with h | h <;> cases h), (fun _ => hab), (fun u st' hsu _ => hu u st' hsu)⟩
   · -- in body, foster parented
     obtain ⟨h1, h2⟩ := fbody_add_sim (x := x) (y := y) hg0 st
     refine ⟨h1, ?_⟩
     intro r s1 hs1
     obtain ⟨hr, hg1, hab, hu⟩ := h2 r s1 hs1
-    exact ⟨hr, hg1, fun h => by rcases h with h | h <;> cases h, fun _ => hab, fun u st' hsu _ => hu u st' hsu⟩
+    exact ⟨hr, hg1, (fun h => by rcases h with h | h <;> cases h), (fun _ => hab), (fun u st' hsu _ => hu u st' hsu)⟩
   · -- pending table text
-    refine ⟨fun e he => by rw [pend_apply] at he; cases he, ?_⟩
+    refine ⟨(fun e he => by rw [pend_apply] at he; cases he), ?_⟩
     intro r s1 hs1
     rw [pend_apply] at hs1
     simp only [Except.ok.injEq, Prod.mk.injEq] at hs1
@@ -401,8 +401,8 @@ theorem terminal_add {k : CKind} (hk : Terminal k) {st : SplitStatus} {x y : Str
         rcases List.mem_append.mp hp with hp | hp
         · exact hg0.pend p hp
         · simp at hp; subst hp; exact hx⟩
-    refine ⟨rfl, hg1, fun _ => ⟨s0.mode, s0.origMode, _, s0.framesetOk, s0.ignoreLf, s0.currentLine, s0.traceRev,
-      s0.dom, rfl, DQ.refl _⟩, fun h => by rcases h with h | h <;> cases h, ?_⟩
+    refine ⟨rfl, hg1, (fun _ => ⟨s0.mode, s0.origMode, _, s0.framesetOk, s0.ignoreLf, s0.currentLine, s0.traceRev,
+      s0.dom, rfl, DQ.refl _⟩), (fun h => by rcases h with h | h <;> cases h), ?_⟩
     intro u st' hsu hst'
     rw [pend_apply, pend_apply]
     refine ⟨rfl, rfl, ?_⟩
@@ -416,5 +416,299 @@ theorem terminal_add {k : CKind} (hk : Terminal k) {st : SplitStatus} {x y : Str
     have e : s0.pendingTableText ++ [(st, x), (st', y)] = (s0.pendingTableText ++ [(st, x)]) ++ [(st', y)] := by simp
     rw [e] at h1
     exact h1.trans h2
+
+theorem good_trEq {s : State} (hg : Good s) (tr : List (SinkOp × Output)) : Sim s (withTr s tr) :=
+  TrEq.sim ⟨tr, rfl⟩ hg
+
+/-- **a non-foreign terminal dispatch** -/
+theorem term_case {s s0 : State} {st : SplitStatus} {k : CKind} {x y : Str} {tr : List (SinkOp × Output)}
+    (hg : Good s) (hx : x ≠ []) (hy : y ≠ []) (hv : Valid st (x ++ y))
+    (hf : isForeignChars s = .ok (false, withTr s tr)) (hc : charsPre s.mode st (withTr s tr) = .ok (k, s0))
+    (hterm : Terminal k) : AddAt s st x y := by
+  have hxy : x ++ y ≠ [] := by simp [hx]
+  have hd : dPre st s = .ok (k, s0) := by rw [dPre_eval_false _ hf]; exact hc
+  have hgq : Good (withTr s tr) := good_withTr hg tr
+  have hkin : k ∈ kinds s.mode st := ((charsPre_kinds s.mode st).post hgq hc).1
+  have hnre : ∀ m', k ≠ .re m' := by
+    intro m' h; subst h; rcases hterm with h | h | h | h <;> cases h
+  have hs0 : Sim (withTr s tr) s0 := charsPre_sim hgq hc hnre
+  have hg0 : Good s0 := hs0.symm.good
+  have hss0 : Sim s s0 := (good_trEq hg tr).trans hs0
+  have hm0 : s0.mode = s.mode := by
+    have := charsPre_keeps s.mode st _ _ _ hc
+    simp only [fr, Prod.mk.injEq] at this
+    exact this.2.2.2.2.2.2.2.2
+  obtain ⟨hadd1, hadd2⟩ := terminal_add hterm hx hy hv hg0
+  refine term_finish hg hx hxy hd (finRes_terminal (Or.inl hterm)) ⟨hadd1, ?_⟩ ?_
+  · intro r s1 h1
+    obtain ⟨hr, hg1, _, _, hu⟩ := hadd2 r s1 h1
+    exact ⟨hr, hg1, hu⟩
+  · intro s1 h1
+    obtain ⟨_, hg1, hqa, hqb, _⟩ := hadd2 _ s1 h1
+    have hm1 : s1.mode = s.mode := (charsFin_mode h1).trans hm0
+    -- what the queries see in `s1`
+    have hq : QSim (sf false s) (sf false s1) ∨ HtmlTop s1 := by
+      rcases hterm with rfl | rfl | rfl | rfl
+      · exact Or.inl (hss0.qsimF.trans (qsim_foster (hqa (Or.inl rfl)) false))
+      · rcases hqb (Or.inl rfl) with h | h
+        · exact Or.inl (hss0.qsimF.trans h)
+        · exact Or.inr h
+      · rcases hqb (Or.inr rfl) with h | h
+        · exact Or.inl (hss0.qsimF.trans h)
+        · exact Or.inr h
+      · exact Or.inl (hss0.qsimF.trans (qsim_foster (hqa (Or.inr rfl)) false))
+    have hn : ∀ u', Sim s1 u' → NFor u' := by
+      intro u' hu'
+      rcases hq with h | h
+      · exact NFor.transfer ⟨tr, hf⟩ (h.trans hu'.qsimF)
+      · exact NFor.of_htmlTop (h.of_sim hu')
+    rcases mode_group hkin hterm with hpure | ⟨w, rfl, hsp, hkw⟩ | ⟨rfl, htab⟩
+    · -- the mode takes the token whole
+      obtain ⟨u1, hs, hp⟩ := second_ns hg1 hy (hn s1 hg1.sim) (k := k)
+        (fun u' hu' => ⟨u', by rw [hm1, hpure]; rfl, (hu'.good hg1).sim⟩) (finRes_terminal (Or.inl hterm) _ _)
+      exact ⟨u1, .notSplit, hs, Or.inl rfl, hp⟩
+    · -- the mode splits; `y` continues the run
+      have hyw : ∀ c ∈ y, isAsciiWhitespace c = w := (valid_cls_iff w y).mp hv.right
+      obtain ⟨u1, hs, hp⟩ := second_sp hg1 hy hn (k := k) hyw
+        (fun u' => by rw [hm1, hsp]; rfl)
+        (fun u' hu' => ⟨u', by rw [hm1, hkw]; rfl, hu'.symm.good.sim⟩) (finRes_terminal (Or.inl hterm) _ _)
+      exact ⟨u1, cls w, hs, Or.inr rfl, hp⟩
+    · -- a table mode: the current node is still not a table part
+      have hc' : tablePre (withTr s tr) = .ok (.body true, s0) := by rw [← htab st]; exact hc
+      obtain ⟨⟨tr0, hcn0⟩, _⟩ := tablePre_inv hgq hc'
+      have hcn : ∀ u', Sim s1 u' → ∃ tr', currentNodeIn tableOuterChars u' = .ok (false, withTr u' tr') := by
+        intro u' hu'
+        rcases hq with h | h
+        · have h2 : QSim (sf false (withTr s tr)) (sf false u') :=
+            (qsim_foster (QSim.withTr s tr).symm false).trans (h.trans hu'.qsimF)
+          exact answer_transfer (currentNodeIn_f _) (currentNodeIn_q _) hcn0 h2
+        · exact currentNodeIn_htmlTop (h.of_sim hu') _ fmt_not_outer
+      obtain ⟨u1, hs, hp⟩ := second_ns hg1 hy (hn s1 hg1.sim) (k := .body true)
+        (fun u' hu' => by
+          obtain ⟨tr', htr'⟩ := hcn u' (hu'.sim hg1)
+          obtain ⟨u'', h1', h2'⟩ := tablePre_else (good_withTr (hu'.good hg1) tr') htr'
+          exact ⟨u'', by rw [hm1, htab]; exact h1', (good_trEq (hu'.good hg1) tr').trans h2'⟩) rfl
+      exact ⟨u1, .notSplit, hs, Or.inl rfl, hp⟩
+
+/-- **a foreign dispatch** -/
+theorem foreign_case {s : State} {st : SplitStatus} {x y : Str} {tr : List (SinkOp × Output)}
+    (hg : Good s) (hx : x ≠ []) (hy : y ≠ []) (hf : isForeignChars s = .ok (true, withTr s tr)) :
+    AddAt s st x y := by
+  have hxy : x ++ y ≠ [] := by simp [hx]
+  have hd : dPre st s = .ok (.ffa, withTr s tr) := dPre_eval_true _ hf
+  have hgq : Good (withTr s tr) := good_withTr hg tr
+  obtain ⟨h1, h2⟩ := fa_add_sim true (x := x) (y := y) hgq
+  have e : ∀ st' z, charsFin .ffa st' z = FA true z := fun _ _ => rfl
+  refine term_finish hg hx hxy hd (fun _ _ => rfl) ⟨?_, ?_⟩ ?_
+  · intro e' he'; rw [e] at he' ⊢; exact h1 e' he'
+  · intro r s1 hs1
+    rw [e] at hs1
+    obtain ⟨hr, hg1, hu⟩ := h2 r s1 hs1
+    exact ⟨hr, hg1, fun u st' hsu _ => by rw [e, e]; exact hu u hsu⟩
+  · intro s1 hs1
+    rw [e] at hs1
+    obtain ⟨_, hg1, _⟩ := h2 _ s1 hs1
+    have hq : QSim s s1 := (QSim.withTr s tr).trans (FA_qsim hs1)
+    obtain ⟨tr1, htr1⟩ := (isForeign_q _).transfer hq hf
+    have hd1 : dPre .notSplit s1 = .ok (.ffa, withTr s1 tr1) := dPre_eval_true _ htr1
+    exact ⟨withTr s1 tr1, .notSplit, good_trEq hg1 tr1, Or.inl rfl, PTC_term hg1 hy hd1 rfl⟩
+
+/-- **a dispatch that ignores the token** -/
+theorem drop_case {s s0 : State} {st : SplitStatus} {x y : Str} {tr : List (SinkOp × Output)}
+    (hg : Good s) (hx : x ≠ []) (hy : y ≠ []) (hv : Valid st (x ++ y))
+    (hf : isForeignChars s = .ok (false, withTr s tr)) (hc : charsPre s.mode st (withTr s tr) = .ok (.drop, s0)) :
+    AddAt s st x y := by
+  have hxy : x ++ y ≠ [] := by simp [hx]
+  have hd : dPre st s = .ok (.drop, s0) := by rw [dPre_eval_false _ hf]; exact hc
+  have hgq : Good (withTr s tr) := good_withTr hg tr
+  have hkin : CKind.drop ∈ kinds s.mode st := ((charsPre_kinds s.mode st).post hgq hc).1
+  have hs0 : Sim (withTr s tr) s0 := charsPre_sim hgq hc (fun m' h => by cases h)
+  have hg0 : Good s0 := hs0.symm.good
+  have hss0 : Sim s s0 := (good_trEq hg tr).trans hs0
+  have hm0 : s0.mode = s.mode := by
+    have := charsPre_keeps s.mode st _ _ _ hc
+    simp only [fr, Prod.mk.injEq] at this
+    exact this.2.2.2.2.2.2.2.2
+  obtain ⟨w, rfl, hsp⟩ := mode_group_drop hkin rfl
+  have hyw : ∀ c ∈ y, isAsciiWhitespace c = w := (valid_cls_iff w y).mp hv.right
+  have hn : ∀ u', Sim s0 u' → NFor u' := fun u' hu' => NFor.transfer ⟨tr, hf⟩ (hss0.trans hu').qsimF
+  -- in any state `Sim` to `s0` the prelude drops the run again
+  have hkd : ∀ u', Sim s0 u' → ∃ u'', charsPre s0.mode (cls w) u' = .ok (.drop, u'') ∧ Sim u' u'' := by
+    intro u' hu'
+    have hr := (respQ_resp (charsPre_ok s.mode (cls w))) (withTr s tr) u' (hs0.trans hu')
+    rw [hc] at hr
+    rw [hm0]
+    cases hcu : charsPre s.mode (cls w) u' with
+    | error e => rw [hcu] at hr; exact hr.elim
+    | ok v =>
+      obtain ⟨k', u''⟩ := v
+      rw [hcu] at hr
+      obtain ⟨hk', _, hsu⟩ := hr
+      subst hk'
+      exact ⟨u'', rfl, hu'.symm.trans hsu⟩
+  obtain ⟨u1, hs, hp⟩ := second_sp hg0 hy hn (k := .drop) hyw (fun u' => by rw [hm0, hsp]; rfl) hkd rfl
+  unfold AddAt
+  rw [PTC_term hg hxy hd rfl, bind_apply, PTC_term hg hx hd rfl]
+  show RelR _ (.ok (.continue_, s0)) (PTC (.chars .notSplit y) [] s0)
+  rw [hp]
+  exact ⟨rfl, trivial, hs⟩
+
+/-! ### the main induction -/
+
+theorem bind_apply_eq {α β : Type} {m m' : M α} {f : α → M β} {s s' : State} (h : m s = m' s') :
+    (m >>= f) s = (m' >>= f) s' := by
+  rw [bind_apply, bind_apply, h]
+
+theorem PTC_queue' {s : State} (hg : Good s) {st : SplitStatus} {x z : Str} (hx : x ≠ []) (hst : st ≠ .notSplit)
+    (hz : z ≠ []) :
+    PTC (.chars st x) [.chars .notSplit z] s = (PTC (.chars st x) [] >>= fun _ => PTC (.chars .notSplit z) []) s :=
+  PTC_queue (rank s.mode + 1) s st x _ hg hx hst ⟨.notSplit, z, rfl, hz⟩ (by omega)
+
+theorem cls_ne_notSplit (w : Bool) : cls w ≠ .notSplit := by cases w <;> (intro h; cases h)
+
+theorem mu_chars (s : State) (st : SplitStatus) (z : Str) :
+    mu s (.chars st z) [] = 16 * z.length + splitBonus (.chars st z) + rank s.mode := by
+  simp [mu, tokLen, totLen]
+
+theorem splitBonus_cls (w : Bool) (z : Str) : splitBonus (.chars (cls w) z) = 0 := by cases w <;> rfl
+
+/-- **processing a character token in two pieces** -/
+theorem ptc_add : ∀ (n : Nat) (s : State) (st : SplitStatus) (x y : Str), Good s → x ≠ [] → y ≠ [] →
+    Valid st (x ++ y) → mu s (.chars st (x ++ y)) [] < n → AddAt s st x y
+  | 0, _, _, _, _, _, _, _, _, h => by omega
+  | n + 1, s, st, x, y, hg, hx, hy, hv, hmu => by
+    have hxy : x ++ y ≠ [] := by simp [hx]
+    cases hd : dPre st s with
+    | error e =>
+      unfold AddAt
+      rw [dPre_error hg hxy (by simp) hd, bind_apply, dPre_error hg hx (by simp) hd]
+      trivial
+    | ok v =>
+      obtain ⟨k, s0⟩ := v
+      obtain ⟨hdok, hg0⟩ := dPre_post hg hd
+      obtain ⟨tr, hcase⟩ := dPre_inv hd
+      rcases hcase with ⟨hf, rfl, rfl⟩ | ⟨hf, hc⟩
+      · exact foreign_case hg hx hy hf
+      · cases k with
+        | fa => exact term_case hg hx hy hv hf hc (Or.inl rfl)
+        | pend => exact term_case hg hx hy hv hf hc (Or.inr (Or.inr (Or.inr rfl)))
+        | body f =>
+          cases f
+          · exact term_case hg hx hy hv hf hc (Or.inr (Or.inl rfl))
+          · exact term_case hg hx hy hv hf hc (Or.inr (Or.inr (Or.inl rfl)))
+        | ffa => exact (((charsPre_ok s.mode st).post (good_withTr hg tr) hc).1).elim
+        | drop => exact drop_case hg hx hy hv hf hc
+        | re m' =>
+          have hk' : rank m' < rank s.mode := hdok
+          unfold AddAt
+          rw [PTC_re hg hxy (by simp) hd, bind_apply_eq (PTC_re hg hx (by simp) hd)]
+          refine ptc_add n { s0 with mode := m' } st x y ⟨hg0.af, hg0.pend⟩ hx hy hv ?_
+          rw [mu_chars] at hmu ⊢
+          show 16 * (x ++ y).length + splitBonus _ + rank m' < n
+          omega
+        | split =>
+          have hst : st = .notSplit := hdok
+          subst hst
+          unfold AddAt
+          rw [PTC_split hg hxy (by simp) hd, bind_apply_eq (PTC_split hg hx (by simp) hd)]
+          obtain ⟨c, x', rfl⟩ := List.exists_cons_of_ne_nil hx
+          have hb8 : splitBonus (.chars .notSplit (c :: x' ++ y)) = 8 := rfl
+          rw [mu_chars, hb8] at hmu
+          have hlen : (c :: x' ++ y).length = (c :: x').length + y.length := List.length_append
+          have hyl : 0 < y.length := List.length_pos_iff.mpr hy
+          have hr0 := rank_le s0.mode
+          by_cases hR : (c :: x').dropWhile (cw (isAsciiWhitespace c)) = []
+          · -- `x` is a single run
+            obtain ⟨hall, hpop⟩ := pop_append_outer (y := y) hR
+            have hallcw : ∀ a ∈ c :: x', cw (isAsciiWhitespace c) a = true := fun a ha => by simp [cw, hall a ha]
+            have hpx : popFrontCharRun (c :: x') = some (c :: x', isAsciiWhitespace c, []) := pop_class hx hall
+            simp only [KInf, hpop, hpx, List.length_nil, Nat.lt_irrefl, if_false, List.nil_append]
+            by_cases hF : y.takeWhile (cw (isAsciiWhitespace c)) = []
+            · -- `y` starts a new run
+              have hRy : y.dropWhile (cw (isAsciiWhitespace c)) = y := by
+                have := List.takeWhile_append_dropWhile (p := cw (isAsciiWhitespace c)) (l := y)
+                rw [hF, List.nil_append] at this
+                exact this
+              rw [hF, hRy, List.append_nil, if_pos hyl, PTC_queue' hg0 hx (cls_ne_notSplit _) hy]
+              exact relR_self (PTC2_resp _ _ hx hy) hg0
+            · -- `y` continues the run of `x`
+              have hFc : ∀ a ∈ y.takeWhile (cw (isAsciiWhitespace c)), isAsciiWhitespace a = isAsciiWhitespace c :=
+                fun a ha => by simpa [cw] using H5V.Props.C06.mem_takeWhile_sat _ _ _ ha
+              have hvXF : Valid (cls (isAsciiWhitespace c)) (c :: x' ++ y.takeWhile (cw (isAsciiWhitespace c))) := by
+                rw [valid_cls_iff]
+                intro a ha
+                rcases List.mem_append.mp ha with ha | ha
+                · exact hall a ha
+                · exact hFc a ha
+              have hFl : (y.takeWhile (cw (isAsciiWhitespace c))).length + (y.dropWhile (cw (isAsciiWhitespace c))).length
+                  = y.length := by
+                rw [← List.length_append, List.takeWhile_append_dropWhile]
+              have ih1 := ptc_add n s0 (cls (isAsciiWhitespace c)) (c :: x') (y.takeWhile (cw (isAsciiWhitespace c)))
+                hg0 hx hF hvXF (by
+                  rw [mu_chars, splitBonus_cls, List.length_append]
+                  omega)
+              unfold AddAt at ih1
+              by_cases hRy : y.dropWhile (cw (isAsciiWhitespace c)) = []
+              · have hyF : y.takeWhile (cw (isAsciiWhitespace c)) = y := by
+                  have := List.takeWhile_append_dropWhile (p := cw (isAsciiWhitespace c)) (l := y)
+                  rw [hRy, List.append_nil] at this
+                  exact this
+                rw [hRy]
+                simp only [List.length_nil, Nat.lt_irrefl, if_false]
+                rw [hyF] at ih1 ⊢
+                exact ih1
+              · have hRl : 0 < (y.dropWhile (cw (isAsciiWhitespace c))).length := List.length_pos_iff.mpr hRy
+                rw [if_pos hRl]
+                have hXF : c :: x' ++ y.takeWhile (cw (isAsciiWhitespace c)) ≠ [] := by simp
+                rw [PTC_queue' hg0 hXF (cls_ne_notSplit _) hRy]
+                -- A: the run in two pieces, then the rest
+                have hA := relR_bind (f := fun _ => PTC (.chars .notSplit (y.dropWhile (cw (isAsciiWhitespace c)))) [])
+                  (f' := fun _ => PTC (.chars .notSplit (y.dropWhile (cw (isAsciiWhitespace c)))) []) ih1
+                  (fun _ sa ta _ hs => PTC_resp' .notSplit hRy sa ta hs)
+                refine hA.trans ?_
+                -- B: the second piece in two pieces
+                rw [bind_assoc]
+                refine relR_bind (relR_self (PTC_resp' _ hx) hg0) ?_
+                intro _ sa ta _ hs
+                have hgta : Good ta := hs.symm.good
+                have ih2 := ptc_add n ta .notSplit (y.takeWhile (cw (isAsciiWhitespace c)))
+                  (y.dropWhile (cw (isAsciiWhitespace c))) hgta hF hRy trivial (by
+                    rw [mu_chars, List.takeWhile_append_dropWhile]
+                    have h8 : splitBonus (.chars .notSplit y) = 8 := rfl
+                    have := rank_le ta.mode
+                    have hxl : 0 < (c :: x').length := List.length_pos_iff.mpr hx
+                    rw [h8]
+                    omega)
+                unfold AddAt at ih2
+                rw [List.takeWhile_append_dropWhile] at ih2
+                exact (PTC2_resp _ _ hF hRy sa ta hs).trans ih2.symm
+          · -- the first run of `x` ends inside `x`
+            have hpop := pop_append_inner (y := y) hR
+            have hpx := pop_cons c x'
+            have hF1 : (c :: x').takeWhile (cw (isAsciiWhitespace c)) ≠ [] := by
+              simp [List.takeWhile, cw]
+            have hRl : 0 < ((c :: x').dropWhile (cw (isAsciiWhitespace c))).length := List.length_pos_iff.mpr hR
+            have hRyl : 0 < ((c :: x').dropWhile (cw (isAsciiWhitespace c)) ++ y).length := by
+              rw [List.length_append]; omega
+            have hRy : (c :: x').dropWhile (cw (isAsciiWhitespace c)) ++ y ≠ [] := by
+              intro h; rw [h] at hRyl; simp at hRyl
+            simp only [KInf, hpop, hpx, if_pos hRl, if_pos hRyl, List.nil_append]
+            rw [PTC_queue' hg0 hF1 (cls_ne_notSplit _) hRy,
+              bind_apply_eq (PTC_queue' hg0 hF1 (cls_ne_notSplit _) hR), bind_assoc]
+            refine relR_bind (relR_self (PTC_resp' _ hF1) hg0) ?_
+            intro _ sa ta _ hs
+            have hgsa : Good sa := hs.good
+            have hFl : ((c :: x').takeWhile (cw (isAsciiWhitespace c))).length +
+                ((c :: x').dropWhile (cw (isAsciiWhitespace c))).length = (c :: x').length := by
+              rw [← List.length_append, List.takeWhile_append_dropWhile]
+            have hF1l : 0 < ((c :: x').takeWhile (cw (isAsciiWhitespace c))).length := List.length_pos_iff.mpr hF1
+            have ih := ptc_add n sa .notSplit ((c :: x').dropWhile (cw (isAsciiWhitespace c))) y hgsa hR hy trivial (by
+              rw [mu_chars]
+              have h8 : splitBonus (.chars .notSplit ((c :: x').dropWhile (cw (isAsciiWhitespace c)) ++ y)) = 8 := rfl
+              have := rank_le sa.mode
+              rw [h8, List.length_append]
+              omega)
+            unfold AddAt at ih
+            exact relR_lift ih (PTC2_resp _ _ hR hy) hs
 
 end H5V.Lemmas.TBSplit
